@@ -10,7 +10,10 @@ from props import c07 as base
 ID = 'C11'
 LEVEL = 'proof'
 CLUSTER = 'E'
-GEN_UNITS = ['zone_line', 'read_zone_line', 'rotate']
+GEN_UNITS = ['zone_line', 'read_zone_line', 'rotate',
+             # simTie: Props/C11K2.lean (metamorphic relations transferred to the generated routes)
+             'sim_runtime', 'sim_check_residues', 'sim_get_identical_atoms', 'sim_compute_lrmsd_pdb2sql', 'sim_compute_irmsd_pdb2sql',
+             'sim_compute_fnat_pdb2sql', 'sim_compute_clashes', 'rmsd_runtime', 'rmsd_compute_residue_pairs_ref', 'rmsd_compute_fnat_fast']
 MODELS = base.MODELS
 RULE = ('a synthetic two-chain complex (chains A/B, as in C07: jittered / rigidly displaced / incomplete decoys) and a transformed copy: '
         '(1) one of the 24 lattice rotations + a millesimal translation applied EXACTLY in integer milli-Angstrom to the decoy, or to decoy and '
